@@ -70,21 +70,34 @@ func validTypeKeys(p *Prog, r *Report) map[string]bool {
 		r.Undecided("D1-type-table", "anchor:purl.validType", "-", "not found")
 		return nil
 	}
-	keys := map[string]bool{}
-	nonConst := false
+	// the table is either built inside validType or a package-level map literal it looks up
+	var lookup *ssa.Lookup
 	forEachInstr(fn, func(_ *ssa.BasicBlock, _ int, in ssa.Instruction) {
-		if mu, ok := in.(*ssa.MapUpdate); ok {
-			if s, ok := constString(mu.Key); ok {
-				if b, ok := constBool(mu.Value); ok && b {
+		if lk, isL := in.(*ssa.Lookup); isL && lookup == nil {
+			if _, isMap := lk.X.Type().Underlying().(*types.Map); isMap {
+				lookup = lk
+			}
+		}
+	})
+	keys := map[string]bool{}
+	nonConst := lookup == nil
+	if lookup != nil {
+		rows, ok := mapRows(p, fn, lookup.X)
+		if !ok {
+			nonConst = true
+		}
+		for _, row := range rows {
+			if s, ok := constString(row.Key); ok {
+				if b, ok := constBool(row.Val); ok && b {
 					keys[s] = true
 				}
 			} else {
 				nonConst = true
 			}
 		}
-	})
+	}
 	if nonConst || len(keys) == 0 {
-		r.Undecided("D1-type-table", "purl.validType:table", p.Pos(fn.Pos()), "the type table is not a literal of constant keys")
+		r.Undecided("D1-type-table", "purl.validType:table", p.Pos(fn.Pos()), "the type table is not a map literal of constant keys (local or package-level, with no other writer)")
 		return nil
 	}
 	// the function must answer by looking its (lower-cased) argument up in that table
